@@ -41,6 +41,7 @@ def run(ctx):
     opaque_layout(ctx, P)
     version_named_dispatch(ctx, P)
     incremental_header_adjustments(ctx, P)
+    image_header_length_formula(ctx, P)
     from rules import casts
     casts.r_cast(ctx, P, only=casts.SERIALISERS, floor=12)
     dispatch(ctx, P)
@@ -460,6 +461,57 @@ def incremental_header_adjustments(ctx, P):
                           ok, function=p, site=site(b, i), guards=[site(b, g) for g, _ in gs],
                           missing=None if ok else '%s never writes %s, and the mutator does not refuse that version' % (', '.join(blind), fld))
     ctx.floor(P + ':S05-13:floor', 'signature mutators that adjust the stored length incrementally', n, 2)
+
+
+def _direct_bin_const(b, o, defs, ops, depth=0):
+    """The constant operand of the arithmetic operation that directly defines operand `o` (through copies / casts / `.0` of a checked op)."""
+    for _ in range(8):
+        if 'l' not in o:
+            return None
+        d = defs.get(o['l'])
+        if d is None or d[1].get('k') == 'call':
+            if d is not None and re.search(r'TryInto::try_into$|TryFrom::try_from$|From::from$|Into::into$|Try::branch$', d[1]['f'].get('fn', '')) and d[1]['args']:
+                o = d[1]['args'][0]
+                continue
+            return None
+        r = d[1]['r']
+        if r['k'] in ('use', 'cast'):
+            o = r['o'][0]
+            continue
+        if r['k'] == 'bin' and r['op'].replace('WithOverflow', '') in ops:
+            cs = [x['k'].get('v') for x in r['o'] if 'k' in x]
+            return cs[0] if cs else None
+        return None
+    return None
+
+
+def image_header_length_formula(ctx, P):
+    """The image header of a user attribute starts with its own length (little endian).  Per variant, the constant the parser
+    subtracts from that length to find the opaque data equals the constant the writer adds to the data length (RFC 9580 5.12.1: the
+    length counts itself, the version octet and, for version 1, the format octet)."""
+    rb = ctx.body('packet::user_attribute::ImageHeader::try_from_reader')
+    wb = ctx.body('<packet::user_attribute::ImageHeader as ser::Serialize>::to_writer')
+    if rb is None or wb is None:
+        return
+    rdefs, wdefs = single_defs(rb), single_defs(wb)
+    read = {}
+    for i, t in rb.calls(r'BufReadParsing::(take_bytes|read_take)$'):
+        c = _direct_bin_const(rb, t['args'][1], rdefs, ('Sub',))
+        reach = rb.reach_from([i])
+        for j, k, s_ in rb.constructs(r'user_attribute::ImageHeader(V1)?$'):
+            if j in reach and s_['r']['v'] == 'Unknown':
+                read[s_['r']['adt'].split('::')[-1] + '::Unknown'] = c
+    wdom = wb.dominators()
+    written = {}
+    for i, t in wb.calls(r'WriteBytesExt::write_u16$'):
+        c = _direct_bin_const(wb, t['args'][1], wdefs, ('Add',))
+        ac = [(a, vs) for a, vs in arm_context(wb, i, wdom) if a.startswith('ImageHeader')]
+        if ac:
+            a, vs = ac[-1]
+            written[a + '::' + vs[0]] = c
+    ctx.check(P + ':S05-14:image-header-length-formula', 'R-table', 'per opaque image-header variant, the constant subtracted by the parser equals the constant added by the writer',
+              bool(read) and read == written and None not in read.values(), function=wb.path, table=dict(parser=read, writer=written),
+              missing=None if read == written else 'parser %s, writer %s' % (read, written))
 
 
 def stored_length_encoding(ctx, P):
